@@ -153,6 +153,12 @@ impl Chunker {
         loop {
             debug_assert!(pos <= data.len());
             if pos == data.len() {
+                // An empty final block still has to flush the data buffered by earlier calls.
+                if is_final {
+                    if let (Some(chunk), _) = self.next(&[], true) {
+                        ret.push(chunk);
+                    }
+                }
                 return ret;
             }
 
